@@ -235,12 +235,68 @@ def run(E: Engine, rep: Report, tier: str) -> dict:
     rep.floor("GUARD", 2)
     # ORDER: the replay calls every method that refuses a measured sequence before it replays the measurement
     _replay_order(E, rep, des_f)
+    # IDS: qubit IDs are ints or strs and a register may mix them: no numpy array is built from an ID-typed argument
+    # (np.array([1, "q2"]) is ['1', 'q2'], after which the int ID is no longer found in the register)
+    _ids_rules(E, rep)
     # ARGS: the serializer reads recorded positional arguments only where they must be positional
     from .. import callargs
 
     extra = callargs.check(E, rep, callargs.default_scopes(E, ("pulser.json.abstract_repr.serializer",)), "ARGS")
     rep.floor("ARGS", 1)
     return {"recordable_calls": len(rec), "ops": ops_all, "serializer_branches": len(branches), **extra}
+
+
+def _ids_rules(E: Engine, rep: Report) -> None:
+    from .. import sym
+    from .symutil import S, sh
+
+    n_fn = 0
+    for f in E.P.all_functions():
+        if f.module.name not in ("pulser.json.abstract_repr.serializer", "pulser.json.abstract_repr.deserializer") or f.kind == "overload":
+            continue
+        a = f.node.args
+        id_params = [x.arg for x in a.posonlyargs + a.args + a.kwonlyargs if x.annotation is not None and "QubitId" in ast.unparse(x.annotation)]
+        if not id_params:
+            continue
+        n_fn += 1
+        bad = []
+        for l in S(E, f).log:
+            if l.kind != "call" or l.value[1] not in (("attr", ("name", "np"), "array"), ("attr", ("name", "np"), "asarray"), ("attr", ("name", "numpy"), "array")):
+                continue
+            if any(sym.contains(a_, ("name", p_)) for a_ in l.value[2] for p_ in id_params):
+                bad.append(l)
+        rep.check(not bad, "IDS", f"{f.short}|ids-not-coerced-by-numpy", f"no np.array(...) over the ID-typed parameter(s) {id_params}",
+                  f"{f.short} builds `{sh(bad[0].value, 80) if bad else ''}` from qubit IDs: numpy gives a list mixing int and str IDs one string dtype (1 -> '1'), so a sequence on a register with mixed IDs can no longer be serialised (the int ID is not found)", E.where(f, bad[0].node if bad else None))
+    if n_fn < 2:
+        raise AnalysisError(f"C04 IDS: only {n_fn} function(s) with QubitId-typed parameters found in the (de)serializer (unfold_targets, convert_targets expected)")
+    # ... and the targets of a BUILT sequence are what build() substitutes for the variables: an AbstractArray (0-d for
+    # `var[i]`).  The scalar-or-collection dispatch of unfold_targets must therefore unwrap array-likes before it asks
+    # `isinstance(..., (int, str))` / iterates -- list() and len() of a 0-d array raise
+    uf = next((f for f in E.P.all_functions() if f.module.name == "pulser.json.abstract_repr.serializer" and f.name == "unfold_targets"), None)
+    if uf is None:
+        raise AnalysisError("anchor: unfold_targets not found in the abstract serializer")
+    r_ = S(E, uf).ret
+    unwrap = [t for t in sym.subterms(r_) if t[0] == "call" and t[1] == ("name", "isinstance") and len(t[2]) == 2 and t[2][0] == ("name", "target_ids") and any(x[0] == "attr" and x[2] == "AbstractArray" for x in sym.subterms(t[2][1]))] if r_ is not None else []
+    conv = r_ is not None and any(t[0] == "call" and t[1][0] == "attr" and t[1][2] in ("tolist", "item", "as_array") for t in sym.subterms(r_))
+    rep.check(bool(unwrap) and conv, "IDS", "unfold_targets|built-array-targets-unwrapped", "array-like targets (np / AbstractArray) are converted with tolist() before the scalar / collection dispatch",
+              "unfold_targets no longer unwraps array-like targets: the target of a built sequence that came from `var[i]` is a 0-d AbstractArray, on which list()/len() raise, so to_abstract_repr() of a built sequence fails", E.where(uf))
+    # a parametrized object may have been created with keyword arguments only: both encoders of ParamObj recognise a
+    # parametrized classmethod by looking at args[0] -- only after checking that there is a positional argument
+    n_h = 0
+    for nm in ("_to_dict", "_to_abstract_repr"):
+        pf = E.method("pulser.parametrized.paramobj.ParamObj", nm)
+        for l in S(E, pf, inline=False).calls("hasattr"):
+            a0 = l.value[2][0] if l.value[2] else None
+            if a0 is None or a0[0] != "idx" or a0[2] != ("const", 0) or not any(t == ("attr", ("name", "self"), "args") for t in sym.subterms(a0[1])):
+                continue
+            n_h += 1
+            base = a0[1]
+            guarded = any(x == base or x == ("attr", ("name", "self"), "args") or (x[0] == "cmp" and x[1] in ("Gt", "GtE", "NotEq") and any(t == ("attr", ("name", "self"), "args") for t in sym.subterms(x))) for x in sym.conj_of(l.cond))
+            rep.check(guarded, "IDS", f"ParamObj.{nm}|args[0]-read-only-when-present", "`hasattr(args[0], ...)` is evaluated under `args and ...`",
+                      f"ParamObj.{nm} evaluates `{sh(l.value, 60)}` without first checking that a positional argument exists (path: `{sh(l.cond, 100)}`): an object created with keyword arguments only, e.g. ConstantWaveform(duration=var, value=1.0), raises IndexError in this encoder", E.where(pf, l.node))
+    if n_h < 2:
+        raise AnalysisError(f"anchor: the classmethod test `hasattr(args[0], cls.__name__)` was found in {n_h} of the 2 ParamObj encoders")
+    rep.floor("IDS", 5)
 
 
 def _replay_order(E: Engine, rep: Report, des_f) -> None:
